@@ -29,7 +29,7 @@ impl Conn {
 }
 
 /// Drive one header through the connection. route bits: 0 = encrypt via returned slice / 1 = via writer;
-/// path: 0 = read-based client call, 1 = attempt + one more byte.
+/// path: 0 = read-based client call, 1 = attempt + one more byte, 2 = read-based call that fails before the fifth byte, byte supplied later.
 pub fn one_header(rep: &mut Rep, c: &mut Conn, size: u32, opcode: u16, via_writer: bool, path: u8) -> bool {
     let (k0, sent0) = (c.k, c.sent);
     let replay = move || format!("hdr {} {} {} {} {} {}", hex(&k0), sent0, size, opcode, via_writer as u8, path);
@@ -94,6 +94,26 @@ pub fn one_header(rep: &mut Rep, c: &mut Conn, size: u32, opcode: u16, via_write
             let cuts = (c.sent as u32).wrapping_mul(0x9E37_79B9) >> 27;
             let n = buf.len();
             let mut rd = FragReader::new(&buf, n, cuts, (c.sent & 8) != 0, Fail::None);
+            if c.sent % 512 == 8 {
+                // now and then a storm of interruptions before every fragment (read_exact retries without limit)
+                rd.storm = [300u32, 65, 257, 5000][(c.sent / 512 % 4) as usize];
+            }
+            let h = c.client.read_and_decrypt_server_header(&mut rd);
+            (h.map(|h| (h.size, h.opcode)).map_err(|e| e.to_string()), rd.pos)
+        } else if path == 2 && wire.len() == 5 {
+            // the read-based call loses the connection for a moment exactly before the fifth byte (a non-blocking or timed-out
+            // socket); the caller completes the header with the byte once it has arrived; the connection then goes on
+            let kind = if c.sent & 1 == 0 { std::io::ErrorKind::WouldBlock } else { std::io::ErrorKind::TimedOut };
+            let mut rd = FragReader::new(&wire, 4, (c.sent as u32) & 7, false, Fail::Kind(kind));
+            match c.client.read_and_decrypt_server_header(&mut rd) {
+                Ok(h) => (Err(format!("the reader failed before the fifth byte but the call returned Ok(size={:#x})", h.size)), rd.pos),
+                Err(_) => {
+                    let h = c.client.decrypt_large_server_header(wire[4]);
+                    (Ok((h.size, h.opcode)), rd.pos + 1)
+                }
+            }
+        } else if path == 2 {
+            let mut rd = FragReader::new(&wire, 4, (c.sent as u32) & 7, false, Fail::Eof);
             let h = c.client.read_and_decrypt_server_header(&mut rd);
             (h.map(|h| (h.size, h.opcode)).map_err(|e| e.to_string()), rd.pos)
         } else {
@@ -111,7 +131,11 @@ pub fn one_header(rep: &mut Rep, c: &mut Conn, size: u32, opcode: u16, via_write
             }
         }
     });
-    let pname = if path == 0 { "read" } else { "attempt" };
+    let pname = match path {
+        0 => "read",
+        2 => "read_fifth_byte_late",
+        _ => "attempt",
+    };
     match got {
         Err(e) => {
             rep.violation(&format!("c10:panic:decode:{}:{}", pname, lclass), format!("decoding panicked: {}", e), replay());
@@ -215,7 +239,7 @@ encode route (slice/writer) and decode path (read-based / attempt+byte) vary per
         let mut conn = Conn::new(rng.arr());
         let mut alive = true;
         let mut step = |rep: &mut Rep, conn: &mut Conn, rng: &mut Rng, size: u32, op: u16| -> bool {
-            let ok = one_header(rep, conn, size, op, rng.chance(1, 2), rng.below(2) as u8);
+            let ok = one_header(rep, conn, size, op, rng.chance(1, 2), [0u8, 1, 0, 1, 2][rng.below(5) as usize]);
             rep.ev(1);
             ok
         };
